@@ -482,6 +482,14 @@ class Incarnation:
         self.handles[op["handle"]] = {"f": f, "templ": templ, "model": op["model"], "target": op["target"], "jit": op["jit"]}
         rec["template"] = describe_template(templ)
         rec["template_order"] = _key_order(templ)
+        if op.get("fill"):
+            # the user fills the returned template in place (the documented way to write params) and keeps
+            # using that object; templates handed out by later builds must still be pristine
+            vals = self.plan["params"][op["fill"]]["values"]
+            self._overwrite_params(templ, vals, op.get("fill_leaf", "float"), None, self.plan["params"][op["fill"]].get("shocks_dtype", "float64"))
+            key = f"T:{op['handle']}"
+            self.params_objs[key] = templ
+            self.params_refs[key] = {k: v for k, v in templ.items() if isinstance(v, dict)}
         recipe = self.plan["models"][op["model"]]
         rec["grids"] = {
             nm: np.asarray(g.to_jax()) for nm, g in {**model.states, **model.choices}.items()
